@@ -23,6 +23,18 @@ CHECKS = {
  'C15': ('invariant walker over the live token tree at quiescent points (after parse, after parse_substring, after each export) + run-time enum relation probe',
          'finite/acyclic, in-source ranges, root extent, prev/next consistency, sibling order, mate symmetry, type range on N trees from corpus, generated and hostile inputs, pool and no-pool; 14 numeric enum relations',
          'tail shortcut pointers are reported, not judged; root extent not judged for parse_substring'),
+ 'C07': ('resource monitors per child process: signal watch under an 8 MiB stack, stack high-water and executed-basic-block counter from a trace-pc callback',
+         '32 nesting constructs x {closed, unclosed} x opener runs up to 10^5 (quick) / 10^6 (thorough) bytes x writers: no signal on the shipped-flags and no-pool ASan builds, stack high-water plateaus; cost(d^k) <= 4 x growth of input+output for corpus/generated seeds and 12 pathological patterns, measured in basic blocks',
+         'cost of deep *balanced* nesting is not promised by the property and is not judged (runs are cut short by a time budget and counted); decided up to the sizes run'),
+ 'C13': ('reference expander (Python model of the documented transclusion rules) + termination watchdog + size bound',
+         'N generated include graphs on disk (chains, trees, DAGs with sharing, self-loops, cycles, missing targets, nested directories, transclude-base overrides, wildcards, metadata, CRLF) x {html, latex, fodt, mmd}: acyclic = byte equality of text and manifest with the model; cyclic = returns within the watchdog and stays within S(m+1)^(n+1); CLI agrees with the library',
+         'for cyclic graphs only termination and the size bound are judged; the model\'s cycle reading is reported'),
+ 'C17': ('ThreadSanitizer (happens-before race detection) over a multi-threaded harness with yield injection at hooks + serial-vs-concurrent byte comparison',
+         'N runs of T in {2,4,8,16} threads x 30-60 conversions over 30 documents x 17 format/extension combos on the DISABLE_OBJECT_POOL + TSan build: no report with a frame in /repo/src, every deterministic output equals the serial one; >= 25% of conversions overlapped another thread in every counted run',
+         'TSan only understands intercepted synchronisation; interleavings are those the scheduler and injected yields produced'),
+ 'C18': ('hook-state invariants + ASan + allocated-bytes accounting over enumerated/sampled pool call histories',
+         'N well-bracketed histories (init/drain/free/convert/parse-and-keep/inspect, depth <= 4, <= 8 kept engines) with documents calibrated to 1023/1024/1025/2048/2049 tokens and up to ~68000: uses = depth, inner drains free nothing, outermost drain frees every slab and returns to the recorded byte level, free returns to baseline, re-init starts clean, outputs and kept trees unchanged',
+         'reference output of a document is its first conversion in the process; fresh-process equality is C05'),
  'C08': ('strict XML parser (expat) as oracle over every XML/XHTML output and package member',
          'N slot documents (XML-hostile atoms in every syntactic position) x {opml, fodt, itmz, odt, epub}: every XML member parses; violations are classified by mechanism (by-design passthrough of author-typed markup vs an escaping site)',
          'expat without DTDs (only the five XML entities); sources are valid UTF-8 without C0/C1 controls other than tab/line breaks'),
@@ -52,7 +64,7 @@ EXTRA = {}
 NA = []
 
 man = dict(version=1,
-           setup_cmd='python3 -m compileall -q lib props >/dev/null; python3 lib/build.py asan drv cli dstr_model && python3 lib/build.py asan-nopool drv && python3 lib/build.py plain enumprobe',
+           setup_cmd='python3 -m compileall -q lib props >/dev/null; python3 lib/build.py asan drv cli dstr_model pool_hist && python3 lib/build.py asan-nopool drv cost && python3 lib/build.py plain enumprobe cost drv && python3 lib/build.py cov cost && python3 lib/build.py tsan-nopool threads',
            hooks=dict(guard='MMD6_VERIF', enable='lib/build.py compiles /repo/src directly (no CMake) with -DMMD6_VERIF -DNDEBUG for every sanitizer variant; the harness programs define mmd6_verif_event / mmd6_verif_point',
                       baseline_off_cmd='./baseline_off.sh', source_commits=[hook_commit], add_only=True),
            engines=[dict(name='drv', path='harness/drv.c', serves_properties=sorted(k for k in CHECKS if k != 'C19'), kind_free_text='long-lived worker linked against each sanitizer build; request/reply over pipes; fd-2 capture, exit() wrap, hook event counters, returned-object probe, token-tree walker, engine slots for histories'),
